@@ -25,6 +25,10 @@ pub struct Case {
     /// records that do NOT belong to the RRset (other class / owner / type), mixed into the
     /// iterator handed to TBS::from_input / verify_rrsig; the signed data must ignore them
     pub foreign: Vec<Foreign>,
+    /// the records are decoded from a message-like buffer with compressed names (validator's path)
+    pub from_message: bool,
+    /// deviations of this case are observations (type not yet triaged with the lead)
+    pub observe_only: bool,
 }
 
 /// A record outside the RRset. `pos` = index in the final record list at which it is inserted.
@@ -92,7 +96,7 @@ impl Case {
             })
             .collect();
         json!({
-            "family": "tbs", "type": self.tname, "type_code": self.p.type_covered,
+            "family": "tbs", "from_message": self.from_message, "type": self.tname, "type_code": self.p.type_covered,
             "owner": labels_json(&self.owner), "owner_text": text(&self.owner),
             "rec_owner": labels_json(&self.rec_owner), "class": self.class,
             "rdatas": rd, "ttls": self.ttls,
@@ -134,6 +138,8 @@ impl Case {
             class: v["class"].as_u64().unwrap_or(1) as u16,
             rdatas,
             ttls: v["ttls"].as_array().map(|a| a.iter().map(|x| x.as_u64().unwrap_or(0) as u32).collect()).unwrap_or_default(),
+            from_message: v["from_message"].as_bool().unwrap_or(false),
+            observe_only: false,
             foreign: v["foreign"]
                 .as_array()
                 .map(|a| {
@@ -307,7 +313,9 @@ pub fn classify(c: &Case, want: &[u8], got: &[u8]) -> Vec<(String, String)> {
                     }
                 }
                 None => {
-                    if want_rd.iter().any(|w| w.len() != x.rdata.len()) && !want_rd.iter().any(|w| w.len() == x.rdata.len()) {
+                    if c.from_message && x.rdata.iter().any(|b| b & 0xc0 == 0xc0) && want_rd.iter().all(|w| w.len() > x.rdata.len()) {
+                        "compression-pointer-kept"
+                    } else if want_rd.iter().any(|w| w.len() != x.rdata.len()) && !want_rd.iter().any(|w| w.len() == x.rdata.len()) {
                         "length-differs"
                     } else {
                         "bytes-differ"
@@ -317,10 +325,15 @@ pub fn classify(c: &Case, want: &[u8], got: &[u8]) -> Vec<(String, String)> {
             add(&mut keys, format!("rr-rdata:{}:{kind}", c.tname), format!("RDATA {} is not the canonical RDATA of any RR of the set", hex::enc(&x.rdata)));
         }
     }
+    let unmatched = ch.iter().filter(|x| !want_rd.contains(&&x.rdata)).count();
+    let mut missing = 0usize;
     for w in &want_rd {
         if !ch.iter().any(|x| &&x.rdata == w) {
+            missing += 1;
             let lost_by_case = ch.iter().any(|x| x.rdata.eq_ignore_ascii_case(w));
-            if !lost_by_case {
+            // a canonical RDATA that is missing because hickory emitted a deviating form of the same
+            // RR is explained by the rr-rdata key above
+            if !lost_by_case && missing > unmatched {
                 add(&mut keys, "rr-missing".into(), format!("canonical RDATA {} is missing from the signed data", hex::enc(w)));
             }
         }
@@ -373,11 +386,108 @@ pub fn classify(c: &Case, want: &[u8], got: &[u8]) -> Vec<(String, String)> {
 
 /// Run one case through the real TBS construction and judge it.
 pub fn run_tbs_case(c: &Case, hr: &[RData], l: &mut Local) -> Verdict {
+    let recs = hrecords(c, hr);
+    run_tbs_with_records(c, &recs, l)
+}
+
+/// RDATA types whose embedded names may be compressed in a message (RFC 3597 4: only the types of
+/// RFC 1035).
+pub fn rdata_names_compressible(rtype: u16) -> bool {
+    matches!(rtype, 2 | 3 | 4 | 5 | 6 | 7 | 8 | 9 | 12 | 14 | 15)
+}
+
+/// The records of the case as a validator receives them: a message-like buffer (12 octet header,
+/// the owner name once, every record's owner as a pointer to it, names inside the RDATA of RFC 1035
+/// types compressed maximally against everything before them), decoded with ONE real decoder.
+pub fn records_from_message(c: &Case) -> Result<Vec<Record>, String> {
+    use hickory_proto::serialize::binary::BinDecodable;
+    let rtype = c.p.type_covered;
+    let mut buf = vec![0u8; 12];
+    let mut table: Vec<(Labels, usize)> = vec![];
+    fn put_name(buf: &mut Vec<u8>, table: &mut Vec<(Labels, usize)>, n: &Labels, compress: bool) {
+        let mut fresh = vec![];
+        for i in 0..n.len() {
+            let suffix: Labels = n[i..].to_vec();
+            if compress {
+                if let Some((_, pos)) = table.iter().find(|(s, _)| *s == suffix) {
+                    buf.extend_from_slice(&[0xc0 | (*pos >> 8) as u8, *pos as u8]);
+                    table.extend(fresh);
+                    return;
+                }
+            }
+            if buf.len() < 0x4000 {
+                fresh.push((suffix, buf.len()));
+            }
+            buf.push(n[i].len() as u8);
+            buf.extend_from_slice(&n[i]);
+        }
+        buf.push(0);
+        table.extend(fresh);
+    }
+    // "question": the owner name, type, class
+    put_name(&mut buf, &mut table, &c.rec_owner, false);
+    buf.extend_from_slice(&rtype.to_be_bytes());
+    buf.extend_from_slice(&c.class.to_be_bytes());
+    let first = buf.len();
+    for (rd, ttl) in c.rdatas.iter().zip(c.ttls.iter()) {
+        put_name(&mut buf, &mut table, &c.rec_owner, true);
+        buf.extend_from_slice(&rtype.to_be_bytes());
+        buf.extend_from_slice(&c.class.to_be_bytes());
+        buf.extend_from_slice(&ttl.to_be_bytes());
+        let lenpos = buf.len();
+        buf.extend_from_slice(&[0, 0]);
+        for f in rd {
+            match f {
+                Field::Bytes(b) => buf.extend_from_slice(b),
+                Field::Name(n) => put_name(&mut buf, &mut table, n, rdata_names_compressible(rtype)),
+            }
+        }
+        let rdlen = buf.len() - lenpos - 2;
+        if rdlen > 65535 || buf.len() > 65535 {
+            return Err("message too large".into());
+        }
+        buf[lenpos..lenpos + 2].copy_from_slice(&(rdlen as u16).to_be_bytes());
+    }
+    let mut dec = BinDecoder::new(&buf).clone(first as u16);
+    let mut out = vec![];
+    for _ in 0..c.rdatas.len() {
+        out.push(Record::read(&mut dec).map_err(|e| e.to_string())?);
+    }
+    Ok(out)
+}
+
+/// As `run_tbs_case`, with the records decoded from a compressed message.
+pub fn run_tbs_case_from_message(c: &Case, l: &mut Local) -> Verdict {
+    match catch(|| records_from_message(c)) {
+        Err(p) => {
+            l.violation(&format!("panic:{}", vcore::short_loc(&p.loc)), &p.msg, || c.to_json());
+            Verdict::NoData
+        }
+        Ok(Err(e)) => {
+            // a valid message built by the reference: a validator that cannot read it cannot verify
+            // the (conforming) signature either
+            if c.observe_only {
+                l.outcome(&format!("obs:untriaged-type:message-input:records-do-not-decode:{}", c.tname));
+            } else {
+                l.violation(&format!("message-input:records-do-not-decode:{}", c.tname), &e, || c.to_json());
+            }
+            Verdict::NoData
+        }
+        Ok(Ok(recs)) => {
+            let v = run_tbs_with_records(c, &recs, l);
+            if let Verdict::Equal(_) = v {
+                l.outcome("tbs:equal:records-decoded-from-compressed-message");
+            }
+            v
+        }
+    }
+}
+
+pub fn run_tbs_with_records(c: &Case, recs: &[Record], l: &mut Local) -> Verdict {
     l.eval();
     let rtype = c.p.type_covered;
     let want = canon::signed_data(&c.owner, c.class, &c.p, &c.rdatas);
     let name = hname(&c.owner);
-    let recs = hrecords(c, hr);
     let input = hinput(&c.p);
     let got = catch(|| TBS::from_input(&name, DNSClass::from(c.class), &input, recs.iter()).map(|t| t.as_ref().to_vec()).map_err(|e| e.to_string()));
     let got = match got {
@@ -398,6 +508,15 @@ pub fn run_tbs_case(c: &Case, hr: &[RData], l: &mut Local) -> Verdict {
         }
         (Err(CanonErr::WildcardCountAmbiguous), g) => {
             l.outcome(if g.is_ok() { "obs:wildcard-owner-labels-count-star:accepted" } else { "obs:wildcard-owner-labels-count-star:rejected" });
+            Verdict::NoData
+        }
+        (Ok(w), Err(_)) if w.len() > 65535 => {
+            // the signed data itself is longer than 65,535 octets: hickory builds it in a DNS message
+            // encoder and gives up; reported to the lead, not judged
+            l.outcome("obs:large:signed-data-above-65535-octets-rejected");
+            l.outcome_sample("obs:large:signed-data-above-65535-octets-rejected:sample", || {
+                json!({"type": c.tname, "records": c.rdatas.len(), "owner_wire_len": vref::name::wire_len(&c.owner), "reference_len": w.len()})
+            });
             Verdict::NoData
         }
         (Ok(_), Err(e)) => {
@@ -424,6 +543,9 @@ pub fn run_tbs_case(c: &Case, hr: &[RData], l: &mut Local) -> Verdict {
                 if (c.p.labels as usize) < c.owner.len() {
                     l.outcome("tbs:equal:wildcard-reduced-owner");
                 }
+                if w.len() > 60000 {
+                    l.outcome("tbs:equal:signed-data-above-60000-octets");
+                }
                 if !c.foreign.is_empty() {
                     l.outcome("tbs:equal:foreign-records-ignored");
                 }
@@ -433,6 +555,10 @@ pub fn run_tbs_case(c: &Case, hr: &[RData], l: &mut Local) -> Verdict {
                 Verdict::Equal(w)
             } else {
                 for (k, what) in classify(c, &w, &g) {
+                    if c.observe_only {
+                        l.outcome(&format!("obs:untriaged-type:{k}{}", if c.from_message { ":from-compressed-message" } else { "" }));
+                        continue;
+                    }
                     l.violation(&k, &what, || {
                         let mut j = c.to_json();
                         j["reference_hex"] = json!(hex::enc(&w));
